@@ -126,4 +126,90 @@ def undo_renames(P):
             m.funcs[name] = f
             m.imports.pop(name, None)
             done.append((name + " (moved to %s)" % src.name, q))
+    done += _rehome_methods(P)
+    return done
+
+
+def _rehome_methods(P):
+    """A known method that is gone while a new module-level function of the same name (the method without its
+    `self`, or with the same parameters for a static method) is called from the class: the function body is the
+    method body - it is put back into the class on the analyser's copy and the calls from the class's methods go
+    through `self.` again.  Only when every free name of the body means the same thing in the class's module as
+    in the function's."""
+    import builtins
+    import copy
+    from .known_funcs import KNOWN_PARAMS
+    done = []
+    for q in sorted(KNOWN_FUNCS):
+        if q in P.funcs or ":" not in q or q.split(":")[1].count(".") != 1:
+            continue
+        modname, rest = q.split(":")
+        cname, name = rest.split(".")
+        m = P.modules.get(modname)
+        cls = P.classes.get("%s:%s" % (modname, cname)) if m is not None else None
+        if m is None or cls is None or m.is_tools or q not in KNOWN_PARAMS:
+            continue
+        g = m.funcs.get(name)
+        if g is None:
+            imp = m.imports.get(name)
+            if imp is not None and imp[0] == "pkg" and imp[2] is not None and imp[1] in P.modules:
+                g = P.modules[imp[1]].funcs.get(imp[2])
+        if g is None or g.qual in KNOWN_FUNCS or g.parent is not None:
+            continue
+        kpos = KNOWN_PARAMS[q][0]
+        static = len(g.params) == len(kpos)
+        if not static and len(g.params) != len(kpos) - 1:
+            continue
+        bound = set(g.all_params())
+        for n in ast.walk(g.node):
+            if isinstance(n, ast.Name) and isinstance(n.ctx, (ast.Store, ast.Del)):
+                bound.add(n.id)
+        ok = True
+        add_imports = {}
+        taken = set(m.funcs) | set(m.classes) | set(m.const_nodes)
+        for n in ast.walk(g.node):
+            if isinstance(n, ast.Name) and isinstance(n.ctx, ast.Load) and n.id not in bound and not hasattr(builtins, n.id):
+                if g.module is m or n.id == name:
+                    continue
+                a, b = g.module.imports.get(n.id), m.imports.get(n.id)
+                origin = a if a is not None else (("pkg", g.module.name, n.id) if (n.id in g.module.const_nodes or n.id in g.module.funcs or n.id in g.module.classes) else None)
+                if origin is None:
+                    ok = False
+                elif b == origin:
+                    pass
+                elif b is None and n.id not in taken:
+                    add_imports[n.id] = origin  # the class's module gets the binding the body needs
+                else:
+                    ok = False
+        if not ok:
+            continue
+        m.imports.update(add_imports)
+        node = copy.deepcopy(g.node)
+        node.name = name
+        keep = [d for d in node.decorator_list]  # e.g. @to_tuple on a generator: part of the body's meaning
+        for d in keep:
+            for n in ast.walk(d):
+                if isinstance(n, ast.Name) and n.id not in m.imports and g.module.imports.get(n.id) is not None and n.id not in taken:
+                    m.imports[n.id] = g.module.imports[n.id]
+        if static:
+            node.decorator_list = [ast.Name(id="staticmethod", ctx=ast.Load())] + keep
+        else:
+            node.args.args = [ast.arg(arg="self")] + node.args.args
+            node.decorator_list = keep
+        ast.fix_missing_locations(node)
+        f = P._mk_func(m, node, cls=cls)
+        cls.methods[name] = f
+        for h in list(cls.methods.values()) + list(cls.setters.values()):
+            recv = h.params[0] if h.params and not h.is_static else None
+            if recv is None:
+                continue
+
+            class T(ast.NodeTransformer):
+                def visit_Call(self, c):
+                    self.generic_visit(c)
+                    if isinstance(c.func, ast.Name) and c.func.id == name:
+                        c.func = ast.copy_location(ast.Attribute(value=ast.Name(id=recv, ctx=ast.Load()), attr=name, ctx=ast.Load()), c.func)
+                    return c
+            h.node = ast.fix_missing_locations(T().visit(h.node))
+        done.append((g.qual + " (function put back as method)", q))
     return done
